@@ -115,6 +115,24 @@ CHECKS = {
               'defects found by this check were repaired (fix commits 77c1a44, cf7126d, 663fb3b).'),
         technique='contract-based deductive verification: symbolic execution of the real classes, name-decoded specification, mechanically derived sensitivities',
     ),
+    'C09': dict(
+        category='proof',
+        text=('With the numerical ODE solver assumed (the ghost solver of pvc/ghostsim.py is the statement of its contract), the real '
+              'SBMLModel / PKPDModel code is executed with symbolic parameter vectors and it is proved that after simulate(x, times) the solver '
+              'holds state[name] = x[k] and constant[name] = x[k] exactly for the k-th published parameter (states alphabetically, then literal '
+              'constants alphabetically; derived constants excluded), that logged variables / returned rows follow outputs(), that the '
+              'sensitivity request lists init(state)/constant in published order (also for a subset passed in any order), that the name tables '
+              'are those of the model the solver holds, and that the solver is asked for exactly the requested times.  Programs: every shipped '
+              'library model (real SBML importer) plain / direct / indirect administration and generated compartmental models with up to 3 '
+              'states and 3 literal constants, a derived constant and an intermediate variable, in every declaration order relative to '
+              'alphabetical order; output selections: default, each single output, reversed, with an intermediate variable.  The shipped '
+              'models\' right-hand sides are proved equal to the documented equations as rational identities (sympy).'),
+        design_ref='DESIGN.md section 4 (C09)',
+        note=('The ODE solver (sundials via myokit) is external and absent in this sandbox: its contract is assumed, numerical accuracy is '
+              'outside the check; myokit model queries and the SBML importer assumed; bounds: <= 3 states x <= 3 constants (quick tier samples '
+              'the larger permutations); refuted obligations are replayed on the real chi code over a numeric stand-in solver (pvc/pysim.py).'),
+        technique='contract-based deductive verification with an assumed (ghost) solver contract: symbolic execution of the real code, structural comparison of the solver state',
+    ),
     'C12': dict(
         category='proof',
         text=('Deductive proof with the numbers of measured individuals, simulated individuals, observables and time points all symbolic '
@@ -143,5 +161,6 @@ CHECK_MODULES = {
     'C05': 'contracts.c05',
     'C06': 'contracts.c06',
     'C07': 'contracts.c07',
+    'C09': 'contracts.c09',
     'C12': 'contracts.c12',
 }
